@@ -12,7 +12,12 @@ from ..profiles import Profile, register
 from ..universe import Universe, gen_universe
 
 PROPERTY = "C19"
-HOOKS = ["map_headers", "map_headers", "map_query", "map_case"]
+HOOKS = ["map_headers", "map_headers", "map_query", "map_case", "before_generate_query", "flatmap_headers", "before_generate_headers"]
+QUERY_HOOKS = ("map_query", "before_generate_query")
+
+
+def _case_variant(rng: random.Random, method: str) -> str:
+    return rng.choice([method.upper(), method.lower(), method.capitalize()])
 
 
 def gen_filter(u: Universe, rng: random.Random) -> list[dict]:
@@ -22,12 +27,21 @@ def gen_filter(u: Universe, rng: random.Random) -> list[dict]:
     for _ in range(rng.choice([0, 1, 1, 2])):
         kind = rng.choice(["apply_to", "apply_to", "skip_for"])
         attr = rng.choice(["method", "path", "name", "path_regex", "method_regex"])
+        as_list = rng.random() < 0.3
+
+        def pick(pool: list):
+            if as_list:
+                return rng.sample(pool, min(len(pool), rng.choice([1, 2, 2])))
+            return rng.choice(pool)
+
         if attr == "method":
-            val = rng.choice(sorted({o.method for o in ops}))
+            # methods are matched case-insensitively, whether given as one value or as a list
+            val = pick(sorted({o.method for o in ops}))
+            val = [_case_variant(rng, m) for m in val] if isinstance(val, list) else _case_variant(rng, val)
         elif attr == "path":
-            val = rng.choice(sorted({o.path for o in ops}))
+            val = pick(sorted({o.path for o in ops}))
         elif attr == "name":
-            val = rng.choice(sorted({o.key for o in ops}))
+            val = pick(sorted({o.key for o in ops}))
         elif attr == "path_regex":
             val = rng.choice(["\\{id\\}$", "^/[a-o]", "s$"])
         else:
@@ -65,12 +79,13 @@ def selects(flt: list[dict], op) -> bool:
 
     def m(f) -> bool:
         a, val = f["attr"], f["value"]
+        vals = val if isinstance(val, list) else [val]
         if a == "method":
-            return op.method == val.upper()
+            return op.method in [x.upper() for x in vals]
         if a == "path":
-            return op.path == val
+            return op.path in vals
         if a == "name":
-            return op.key == val
+            return op.key in vals
         if a == "path_regex":
             return re.search(val, op.path) is not None
         return re.search(val, op.method) is not None
@@ -120,9 +135,10 @@ def budget(tier: str) -> dict:
 
 
 RULE_TEXT = (
-    "one case = a seeded registration history executed through the public decorators (map_headers / map_query / map_case hooks "
-    "each adding a distinct marker; bare and named decorator form; no, one or two chained apply_to/skip_for filters by method, "
-    "path, name or regex; global and schema dispatchers; interleaved unregister calls) followed by a simulated engine run; "
+    "one case = a seeded registration history executed through the public decorators (map_ / before_generate_ / flatmap_ hooks on "
+    "headers and query plus map_case, each adding a distinct marker; bare and named decorator form; no, one or two chained "
+    "apply_to/skip_for filters by method (any letter case), path, name - single value or list - or regex; global and schema "
+    "dispatchers; interleaved unregister calls) followed by a simulated engine run; "
     "every fuzzing/stateful wire request of operation o must carry marker k iff hook k is still registered and its own filter "
     "selects o; non-trivial = >= 2 hooks registered with different filters and >= 5 observed requests; distinct = distinct "
     "(history digest, wire digest)"
@@ -190,6 +206,17 @@ class C19Profile(Profile):
                             query = dict(query or {})
                             query[f"hk{k}"] = "1"
                             return query
+                    elif hook_name == "before_generate_query":
+                        def fn(context, strategy):
+                            return strategy.map(lambda q: {**(q or {}), f"hk{k}": "1"})
+                    elif hook_name == "before_generate_headers":
+                        def fn(context, strategy):
+                            return strategy.map(lambda h: {**(h or {}), f"X-Hook-{k}": "1"})
+                    elif hook_name == "flatmap_headers":
+                        def fn(context, headers):
+                            from hypothesis import strategies as st
+
+                            return st.just({**(headers or {}), f"X-Hook-{k}": "1"})
                     else:
                         def fn(context, case):
                             case.headers = dict(case.headers or {})
@@ -244,7 +271,7 @@ class C19Profile(Profile):
             op = u.ops[r.op]
             observed += 1
             for k, reg in regs.items():
-                if reg["hook"] == "map_query":
+                if reg["hook"] in QUERY_HOOKS:
                     has = any(name == f"hk{k}" for name, _ in r.request.query)
                 else:
                     has = r.request.header(f"X-Hook-{k}") is not None
